@@ -439,7 +439,13 @@ class VersionConverter(object):
         if named_path not in elem_map:
             elem_map[named_path] = 1
         else:
+            # Never hand out a name that is already used by a sibling.
+            entity = name.getparent()
+            taken = [sib.findtext("name") for sib in entity.getparent().iterchildren(entity.tag)
+                     if sib is not entity]
             elem_map[named_path] += 1
+            while "%s-%s" % (name.text, elem_map[named_path]) in taken:
+                elem_map[named_path] += 1
             name.text += "-" + str(elem_map[named_path])
 
     def _check_add_ids(self, tree):
